@@ -73,11 +73,14 @@ impl FromStr for Blob {
                 if ss.len() < 2 {
                     return Err(ParseBlobError::UnexpectedEof);
                 }
-                if !s.is_char_boundary(2) {
-                    return Err(ParseBlobError::InvalidChar);
-                }
-                v.push(u8::from_str_radix(&ss[..2], 16)?);
+                // the two hex digits must be two whole characters
+                let hex = ss.get(..2).ok_or(ParseBlobError::InvalidChar)?;
+                v.push(u8::from_str_radix(hex, 16)?);
                 s = &ss[2..];
+            } else if let Some(ss) = s.strip_prefix("\\\\").or_else(|| s.strip_prefix("''")) {
+                // the inverse of `Display`, which prints `\` as `\\` and `'` as `''`
+                v.push(s.as_bytes()[0]);
+                s = ss;
             } else {
                 if !s.is_char_boundary(1) {
                     return Err(ParseBlobError::InvalidChar);
